@@ -40,9 +40,12 @@ def setup_impl_env():
     warnings.filterwarnings('ignore')
     import dliswriter  # noqa
     assert os.path.realpath(dliswriter.__file__).startswith(os.path.realpath(src)), dliswriter.__file__
-    # progressbar writes to stderr: replace by identity
+    # progressbar writes to stderr: keep the real thing (its max_value check can make a write FAIL: defect D27 was hidden for as
+    # long as this harness replaced it by the identity) and only send its drawing to the null device
     import dliswriter.file.writer as w
-    w.progressbar = lambda it, **kw: it
+    import functools
+    _null = open(os.devnull, 'w')
+    w.progressbar = functools.partial(w.progressbar, fd=_null)
 
 
 _scratch = None
